@@ -147,6 +147,12 @@ DIRECTED = [
       "1040.ira_exception1_you": "no", "1040.ira_exception2_you": "no", "1040.ira_exception3_you": "no", "1040.ira_exception4_you": "no",
       "1040.ira_exception1_spouse": "no", "1040.ira_exception2_spouse": "no", "1040.ira_exception3_spouse": "no", "1040.ira_exception4_spouse": "no",
       "1040.pensions_annuities_adjustments": "no", "w-2:0.box_1": "70000.00", "w-2:0.box_2": "8000.00"}),
+    # capital gain distributions that fill the 0 % bracket beyond the qualified dividends (worksheet line 9 above line 2)
+    ({"status": "Single", "dependents": 0, "wage_scale": 25000, "qualified_div": True},
+     {"1099-div": 1},
+     {"w-2:0.box_1": "25000.00", "w-2:0.box_2": "1500.00", "1099-div:0.box_1a": "1500.00", "1099-div:0.box_1b": "1000.00", "1099-div:0.box_2a": "30000.00",
+      "1099-div:0.box_2b": "0.00", "1099-div:0.box_2c": "0.00", "1099-div:0.box_2d": "0.00", "1099-div:0.box_2e": "0.00", "1099-div:0.box_2f": "0.00",
+      "1099-div:0.box_5": "0.00", "1099-div:0.box_7": "0.00", "1099-div:0.box_4": "0.00"}),
     # ... and only the spouse
     ({"status": "MarriedFilingJointly", "dependents": 0, "wage_scale": 60000, "ira": True, "f8606": False},
      {"1099-r": 1},
